@@ -174,6 +174,25 @@ def select_region(body, region):
     """contiguous top-level statements of the function body, located by the source text of the first statement
     (and optionally of the first statement after the region) -- never by line number."""
     start, end = region.get('start'), region.get('end')
+    # within: header texts of the enclosing compound statements, outermost first; the region is then taken from the body of
+    # the innermost one (the first statement, in source order, whose text starts with the anchor)
+    for w in region.get('within', ()):
+        hit = None
+        todo = list(body)
+        while todo and hit is None:
+            st = todo.pop(0)
+            if _norm(ast.unparse(st)).startswith(_norm(w)) and hasattr(st, 'body'):
+                hit = st
+                break
+            sub = []
+            for fld in ('body', 'orelse', 'finalbody'):
+                sub.extend(getattr(st, fld, []) or [])
+            for h in getattr(st, 'handlers', []) or []:
+                sub.extend(h.body)
+            todo = sub + todo
+        if hit is None:
+            raise EngineError('region anchor not found: %r' % w)
+        body = hit.body
     i0 = None
     nth = region.get('nth', 1)            # the nth top-level statement that starts with the anchor text
     for i, st in enumerate(body):
@@ -249,6 +268,7 @@ class Result:
 def build_engine(contract, all_contracts, timeout_ms=10000, mutate=None):
     """engine + module env + closure of the function under contract (from the real source)."""
     eng = Engine(timeout_ms=timeout_ms)
+    COERCIONS.clear()
     src, path = load_source(contract.file)
     if mutate is not None:
         old, new = mutate[0], mutate[1]
